@@ -1,0 +1,332 @@
+//go:build verif
+
+// Verification hook (add-only, build tag "verif"): an in-package test that replays the cases of a
+// driver file on the REAL handlers of this plugin and records what they return as ndjson.
+// It contains no expectations: the trace is judged by the TLA+ trace specification
+// /verif/spec/Trace_Annotations.tla (property C18).  Without VERIF_DRIVER the test is skipped.
+package main
+
+import (
+	"context"
+	"encoding/json"
+	"fmt"
+	"io"
+	"math/rand"
+	"os"
+	"sort"
+	"strings"
+	"testing"
+	"time"
+
+	"github.com/containerd/nri/pkg/api"
+	"github.com/sirupsen/logrus"
+)
+
+const verifSite = "memqos"
+
+type verifAnn struct {
+	Raw   string `json:"raw"`
+	Val   string `json:"val"`
+	Key   string `json:"key"`
+	Scope string `json:"scope"`
+	Ctr   string `json:"ctr"`
+	Vp    string `json:"vp"`
+	Nsfx  bool   `json:"nsfx"`
+}
+
+type verifCfg struct {
+	Yaml        string   `json:"yaml"` // "" with Configured=false: plugin without configuration
+	Configured  bool     `json:"configured"`
+	Allowed     []string `json:"allowed"`
+	Strict      bool     `json:"strict"`
+	EmptyIsNone bool     `json:"emptyIsNone"`
+	Classes     []string `json:"classes"`
+}
+
+type verifCase struct {
+	ID   int        `json:"id"`
+	Site string     `json:"site"`
+	Ctr  string     `json:"ctr"`
+	Ann  []verifAnn `json:"ann"`
+	Keys []string   `json:"keys"`
+	Cfg  string     `json:"cfg"`
+	Res  string     `json:"res"`
+	Tag  string     `json:"tag"`
+}
+
+type verifDriver struct {
+	Seed  int64               `json:"seed"`
+	Runs  int                 `json:"runs"`
+	Cfgs  map[string]verifCfg `json:"cfgs"`
+	Cases []verifCase         `json:"cases"`
+}
+
+type verifEff struct {
+	Ok bool   `json:"ok"`
+	V  string `json:"v"`
+}
+
+type verifResult struct {
+	Panic   bool                `json:"panic"`
+	PanicAt string              `json:"panicAt,omitempty"`
+	Err     bool                `json:"err"`
+	Eff     map[string]verifEff `json:"eff"`
+	Out     map[string]string   `json:"out"`
+}
+
+// verifMap builds a fresh Go map from the pairs in the given insertion order.  Odd variants
+// first grow the map with throw-away keys (more buckets, different layout) and delete them.
+func verifMap(ann []verifAnn, order []int, variant int) map[string]string {
+	var m map[string]string
+	switch variant % 3 {
+	case 0:
+		m = map[string]string{}
+	case 1:
+		m = make(map[string]string, 32)
+	default:
+		m = map[string]string{}
+		for i := 0; i < 19; i++ {
+			m[fmt.Sprintf("verif-filler-%d", i)] = "x"
+		}
+		for i := 0; i < 19; i++ {
+			delete(m, fmt.Sprintf("verif-filler-%d", i))
+		}
+	}
+	for _, i := range order {
+		m[ann[i].Raw] = ann[i].Val
+	}
+	return m
+}
+
+// verifOrders returns n insertion orders: all permutations for up to 4 entries (repeated),
+// seeded shuffles otherwise; the first is always the given order, the second its reverse.
+func verifOrders(k, n int, rng *rand.Rand) [][]int {
+	id := make([]int, k)
+	for i := range id {
+		id[i] = i
+	}
+	var out [][]int
+	if k <= 4 {
+		var perms [][]int
+		var rec func(cur []int, rest []int)
+		rec = func(cur []int, rest []int) {
+			if len(rest) == 0 {
+				perms = append(perms, append([]int{}, cur...))
+				return
+			}
+			for i := range rest {
+				nr := append(append([]int{}, rest[:i]...), rest[i+1:]...)
+				rec(append(cur, rest[i]), nr)
+			}
+		}
+		rec(nil, id)
+		for len(out) < n {
+			out = append(out, perms[len(out)%len(perms)])
+		}
+		return out
+	}
+	out = append(out, append([]int{}, id...))
+	rev := make([]int, k)
+	for i := range rev {
+		rev[i] = k - 1 - i
+	}
+	out = append(out, rev)
+	for len(out) < n {
+		p := append([]int{}, id...)
+		rng.Shuffle(k, func(i, j int) { p[i], p[j] = p[j], p[i] })
+		out = append(out, p)
+	}
+	return out
+}
+
+func verifContainer(name, res string) *api.Container {
+	ctr := &api.Container{Id: "ctr-" + fmt.Sprintf("%x", name), PodSandboxId: "pod0", Name: name}
+	switch res {
+	case "nolinux":
+	case "nores":
+		ctr.Linux = &api.LinuxContainer{}
+	case "nomem":
+		ctr.Linux = &api.LinuxContainer{Resources: &api.LinuxResources{}}
+	case "nolimit":
+		ctr.Linux = &api.LinuxContainer{Resources: &api.LinuxResources{Memory: &api.LinuxMemory{}}}
+	default: // "full"
+		ctr.Linux = &api.LinuxContainer{Resources: &api.LinuxResources{
+			Memory: &api.LinuxMemory{Limit: &api.OptionalInt64{Value: 1000}},
+			Cpu:    &api.LinuxCPU{Shares: &api.OptionalUInt64{Value: 1024}},
+		}}
+	}
+	return ctr
+}
+
+// verifPlugin builds a plugin the way main() and the NRI Configure callback do.
+func verifPlugin(cfg verifCfg, variant int) (*plugin, error) {
+	p := &plugin{}
+	if !cfg.Configured {
+		if variant%2 == 1 { // runtime connected without sending a configuration
+			_, err := p.Configure(context.Background(), "", "verif", "0")
+			return p, err
+		}
+		return p, nil
+	}
+	if variant%2 == 1 {
+		_, err := p.Configure(context.Background(), cfg.Yaml, "verif", "0")
+		return p, err
+	}
+	return p, p.setConfig([]byte(cfg.Yaml))
+}
+
+// verifRun performs one observation: effectiveAnnotations and CreateContainer on a fresh plugin.
+func verifRun(cfg verifCfg, annotations map[string]string, ctrName, res string, keys []string, variant int) (r verifResult) {
+	r = verifResult{Eff: map[string]verifEff{}, Out: map[string]string{}}
+	stage := "setup"
+	defer func() {
+		if x := recover(); x != nil {
+			r.Panic, r.PanicAt = true, stage
+			r.Err, r.Out = false, map[string]string{}
+		}
+	}()
+	p, err := verifPlugin(cfg, variant)
+	if err != nil {
+		panic("verif: configuration rejected: " + err.Error())
+	}
+	pod := &api.PodSandbox{Id: "pod0", Name: "pod0", Uid: "uid0", Namespace: "default", Annotations: annotations}
+	ctr := verifContainer(ctrName, res)
+
+	stage = "effectiveAnnotations"
+	eff := effectiveAnnotations(pod, ctr)
+	for _, k := range keys {
+		v, ok := eff[k]
+		r.Eff[k] = verifEff{Ok: ok, V: v}
+	}
+
+	stage = "CreateContainer"
+	adj, upd, err := p.CreateContainer(context.Background(), pod, ctr)
+	if err != nil {
+		r.Err = true
+		return r
+	}
+	if len(upd) != 0 {
+		r.Out["!updates"] = fmt.Sprint(len(upd))
+	}
+	for k, v := range adj.GetLinux().GetResources().GetUnified() {
+		r.Out[k] = v
+	}
+	return r
+}
+
+func verifKey(r verifResult) string {
+	b, _ := json.Marshal(r)
+	return string(b)
+}
+
+func TestVerifTrace(t *testing.T) {
+	drvPath, outPath := os.Getenv("VERIF_DRIVER"), os.Getenv("VERIF_TRACE")
+	if drvPath == "" || outPath == "" {
+		t.Skip("VERIF_DRIVER / VERIF_TRACE not set")
+	}
+	log = logrus.New()
+	log.SetOutput(io.Discard)
+
+	raw, err := os.ReadFile(drvPath)
+	if err != nil {
+		t.Fatal(err)
+	}
+	var drv verifDriver
+	if err := json.Unmarshal(raw, &drv); err != nil {
+		t.Fatal(err)
+	}
+	if drv.Runs < 20 {
+		drv.Runs = 24
+	}
+	f, err := os.Create(outPath)
+	if err != nil {
+		t.Fatal(err)
+	}
+	defer f.Close()
+	enc := json.NewEncoder(f)
+	enc.SetEscapeHTML(false)
+	emit := func(v interface{}) {
+		if err := enc.Encode(v); err != nil {
+			t.Fatal(err)
+		}
+	}
+
+	// what each configured class yields on its own, measured on the real plugin with a pod that
+	// carries nothing but the class: once in the pod-wide form, once addressed to the container
+	derived := map[string]map[string]map[string]string{}
+	cfgIDs := []string{}
+	for id := range drv.Cfgs {
+		cfgIDs = append(cfgIDs, id)
+	}
+	sort.Strings(cfgIDs)
+	for _, id := range cfgIDs {
+		cfg := drv.Cfgs[id]
+		derived[id] = map[string]map[string]string{}
+		for _, cls := range cfg.Classes {
+			bare := verifRun(cfg, map[string]string{"class" + annotationSuffix: cls}, "cal", "full", []string{"class"}, 0)
+			spec := verifRun(cfg, map[string]string{"class" + annotationSuffix + "/cal": cls}, "cal", "full", []string{"class"}, 1)
+			emit(map[string]interface{}{"ev": "calib", "site": verifSite, "cfg": id, "class": cls, "bare": bare, "cform": spec})
+			if !bare.Panic && !bare.Err {
+				derived[id][cls] = bare.Out
+			}
+		}
+	}
+
+	for _, c := range drv.Cases {
+		if c.Site != verifSite {
+			continue
+		}
+		cfg, ok := drv.Cfgs[c.Cfg]
+		if !ok {
+			t.Fatalf("case %d: unknown cfg %q", c.ID, c.Cfg)
+		}
+		rng := rand.New(rand.NewSource(drv.Seed*1000003 + int64(c.ID)))
+		orders := verifOrders(len(c.Ann), drv.Runs, rng)
+		results := map[string]verifResult{}
+		done := make(chan struct{})
+		go func() {
+			defer close(done)
+			for i, o := range orders {
+				r := verifRun(cfg, verifMap(c.Ann, o, i), c.Ctr, c.Res, c.Keys, i)
+				results[verifKey(r)] = r
+			}
+		}()
+		select {
+		case <-done:
+		case <-time.After(30 * time.Second):
+			emit(map[string]interface{}{"ev": "hang", "site": verifSite, "id": c.ID})
+			t.Fatalf("case %d did not return", c.ID)
+		}
+		keys := []string{}
+		for k := range results {
+			keys = append(keys, k)
+		}
+		sort.Strings(keys)
+		rs := []verifResult{}
+		for _, k := range keys {
+			rs = append(rs, results[k])
+		}
+		if c.Ann == nil {
+			c.Ann = []verifAnn{}
+		}
+		if c.Keys == nil {
+			c.Keys = []string{}
+		}
+		if cfg.Allowed == nil {
+			cfg.Allowed = []string{}
+		}
+		raws := []string{}
+		for _, a := range c.Ann {
+			raws = append(raws, a.Raw+"="+a.Val)
+		}
+		emit(map[string]interface{}{
+			"ev": "case", "site": verifSite, "id": c.ID, "ctr": c.Ctr, "tag": c.Tag, "res": c.Res,
+			"ann": c.Ann, "keys": c.Keys, "rawmap": strings.Join(raws, " | "),
+			"cfg": map[string]interface{}{
+				"id": c.Cfg, "configured": cfg.Configured, "allowed": cfg.Allowed, "strict": cfg.Strict,
+				"emptyIsNone": cfg.EmptyIsNone, "derived": derived[c.Cfg],
+			},
+			"nruns": len(orders), "results": rs,
+		})
+	}
+}
